@@ -449,7 +449,7 @@ def make_elem(name: str, xsi: Optional[str], nil: Optional[str], cv: tuple, last
     return el
 
 
-def run_schema(ctx: Ctx, drv: Optional[Driver], s: dict, v11: bool) -> None:
+def run_schema(ctx: Ctx, drv: Optional[Driver], s: dict, v11: bool, light: bool = False) -> None:
     import xmlschema
     from xmlschema import XMLSchemaException
     ver = '1.1' if v11 else '1.0'
@@ -515,8 +515,10 @@ def run_schema(ctx: Ctx, drv: Optional[Driver], s: dict, v11: bool) -> None:
                 last_x = chain_elems(byname, xsi)[-1]
             else:
                 last_x = last
-            for nil in (None, 'true', 'false', ' 1 ', 'x'):
+            for nil in ((None, 'true') if light else (None, 'true', 'false', ' 1 ', 'x')):
                 for cv0 in contents:
+                    if light and cv0[0] not in (0, 6):
+                        continue
                     if ctx.quick() and nil is not None and cv0[0] not in (0, 1, 6, 9):
                         continue
                     cv = concrete(cv0, last_x)
@@ -1244,6 +1246,45 @@ def known_match(case: dict, detail: Any) -> Optional[str]:
                 return 'C07-F1'
     return None
 
+# ---------------------------------------------------------------- block declared on the head's TYPE only
+TB_HEAD = [(None, ''), (None, 'substitution'), ('', ''), ('', 'extension'), ('', 'restriction'), ('', '#all'),
+           ('', 'extension substitution'), ('substitution', '#all'), ('extension', ''), ('restriction', '')]
+TB_TYPE = [None, '', 'extension', 'restriction', '#all']
+
+
+def gen_typeblock(hb: Optional[str], bd: str, tb: Optional[str], rng) -> dict:
+    """substitution inside a content model where the head element's own effective block is empty (absent with an
+    empty blockDefault, or block='' overriding blockDefault) and the block comes from the head's TYPE (its own
+    `block` or blockDefault): members derived by extension, restriction, two mixed steps, same type, second
+    level members, complex and simple-content heads"""
+    def ct(name: str, base: Optional[str], meth: Optional[str], block: Optional[str], kind: str = 'complex') -> dict:
+        return {'name': name, 'kind': kind, 'base': base, 'meth': meth, 'abstract': False, 'block': block,
+                'final': None}
+    ob = rng.choice(TB_TYPE)      # blocks of the derived (member) types must not matter
+    types = [ct('C0', None, None, tb), ct('C1', 'C0', 'extension', ob), ct('C2', 'C0', 'restriction', ob),
+             ct('C3', 'C1', 'restriction', rng.choice(TB_TYPE)), ct('C4', 'C2', 'extension', rng.choice(TB_TYPE)),
+             {'name': 'S0', 'kind': 'simple', 'base': 'xs:int', 'meth': 'restriction', 'max': 100, 'abstract': False,
+              'block': None, 'final': None},
+             ct('SC0', 'S0', 'extension', tb, 'sc'), ct('SC1', 'SC0', 'extension', ob, 'sc')]
+
+    def el(name: str, ty: str, block: Optional[str], subst: Optional[str]) -> dict:
+        return {'name': name, 'type': ty, 'block': block, 'abstract': False, 'nillable': False, 'fixed': None,
+                'subst': subst, 'final': ''}
+    mb = rng.choice(BLOCKS_E)     # the member's own block must not matter for head -> member
+    elems = [el('e0', 'C0', hb, None), el('e1', 'SC0', hb, None),
+             el('m0', 'C1', mb, 'e0'), el('m1', 'C2', mb, 'e0'), el('m2', 'C0', mb, 'e0'),
+             el('m3', 'C3', rng.choice(['', None]), 'm0'), el('m4', 'C4', rng.choice(['', None]), 'm1'),
+             el('m5', 'SC1', mb, 'e1'), el('m6', 'SC0', mb, 'e1')]
+    return {'types': types, 'elems': elems, 'blockDefault': bd, 'finalDefault': ''}
+
+
+def run_typeblock(ctx: Ctx, drv: Optional[Driver]) -> None:
+    for v11 in (False, True):
+        for hb, bd in TB_HEAD:
+            for tb in TB_TYPE:
+                ctx.count('typeblock-schemas')
+                run_schema(ctx, drv, gen_typeblock(hb, bd, tb, ctx.rng), v11, light=True)
+
 
 def explore(ctx: Ctx, drv: Optional[Driver], n: int) -> None:
     cdir = VERIF / 'corpus' / 'C07'
@@ -1255,6 +1296,7 @@ def explore(ctx: Ctx, drv: Optional[Driver], n: int) -> None:
             run_schema(ctx, drv, gen_schema(ctx.rng), v11)
         for _ in range(max(3, n // 4)):
             run_kinds(ctx, drv, gen_kinds(ctx.rng), v11)
+    run_typeblock(ctx, drv)
     run_alternatives(ctx, drv)
     run_alt_tests(ctx, drv, max(40, 4 * n))
 
